@@ -177,7 +177,7 @@ RNG_BLANK = ('arr', [[N(1)], [BLANK]])
 POOL = [
     ('n:0', N(0), 'lit'), ('n:1', N(1), 'lit'), ('n:-1', N(-1), 'lit'), ('n:2', N(2), 'lit'), ('n:0.5', N(0.5), 'lit'),
     ('n:-2.5', N(-2.5), 'lit'), ('n:1E+200', N(1e200), 'lit'),
-    ('t:3', T('3'), 'lit'), ('t:abc', T('abc'), 'lit'), ('t:', T(''), 'lit'), ('t:1E+999', T('1E+999'), 'lit'),
+    ('t:3', T('3'), 'lit'), ('t:abc', T('abc'), 'lit'), ('t:', T(''), 'lit'), ('t:1E+999', T('1E+999'), 'lit'), ('t:cjk', T('\u8a9e'), 'lit'),
     ('b:TRUE', B(True), 'lit'), ('b:FALSE', B(False), 'lit'),
     ('ref:blank', BLANK, 'ref'),
 ] + [('e:' + e, ('e', e), 'lit') for e in ERRS] + [
